@@ -13,13 +13,15 @@
   The first deletion on an object that still has its parse-time flag (compressed or not) is
   `first_delete`: decompress, carry the cursor, delete — the result is the plain object of the
   canonical pieces without the record under the cursor, with a void cursor; from there `walk_delete`
-  applies (before it, the walk over the parsed object is C03's `walks`).  The mechanical composition of
-  the two phases into one statement is not done; nor are the question section (KF1: by design the
-  result is rejected by the parser) and the OPT-skipping walk over an additional section that holds
-  an OPT record (both covered by the exhaustive correspondence walks).
+  applies; `walk_delete_parsed` composes the two phases (Lemmas/DeleteWalkFresh.lean: until the first
+  deletion the object is untouched and the cursor walks the parsed records).  Not covered by a
+  theorem: the question section (KF1: by design the result is rejected by the parser) and the
+  OPT-skipping walk over an additional section that holds an OPT record (both covered by the
+  exhaustive correspondence walks).
 -/
 import DnsModel.Lemmas.DeleteWalk
 import DnsModel.Lemmas.FirstTouch
+import DnsModel.Lemmas.DeleteWalkFresh
 import DnsModel.Theorems.C02
 import DnsModel.Theorems.C05
 namespace Dns.C11
@@ -158,6 +160,62 @@ theorem first_delete {p : Bytes} {v : View} (h : parse p = .ok v) (L : C03.Layou
       o.qc = (encLabels P'.qls ++ [0]) ++ P'.q4 ∧
       (∀ k, (k + 1 < sectionCountOffset sec ∨ sectionCountOffset sec + 1 < k) → get16 P'.hdr k = get16 (p.take 12) k) :=
   delete_fresh (fresh_ofView h) L o sec hs hl hp hlen c hsec hoff
+
+/-- **C11 for a freshly parsed packet** (compressed or not), a record section, the public walk and any
+stream of choices: the walk-and-delete run terminates without error or panic; there is a run `r` of
+the abstract machine over the numbered canonical forms of the section's records with the same
+keep/delete decisions at every yield; if nothing was deleted the object is untouched; otherwise the
+result is the plain object whose section holds exactly what the machine left (survivors in original
+order, deleted ones gone for good, every survivor yielded), the other sections holding the canonical
+forms of their records, question and other header fields as in the input -/
+theorem walk_delete_parsed {p : Bytes} {v : View} (h : parse p = .ok v) (L : C03.Layout p) (o : C05.Output p L)
+    (sec : Section) (hs : sec.isRec = true) (step : PP → Cursor → Res (Option Cursor))
+    (hstep : step = nextIncludingOpt ∨ (step = nextSkippingOpt ∧ sec ≠ .additional))
+    (choose : Nat → Bool) (c : Cursor) (hc : c.sec = sec) (hv : c.offset = none) :
+    ∃ (pp' : PP) (log : List (Bytes × Bool)) (r : List (Bytes × Nat) × List ((Bytes × Nat) × Bool)),
+      absWalk choose (fuelFor (o.pieces sec).length) 0 (numbered (o.pieces sec)) 0 = some r ∧
+      delWalk step choose (fuelFor (o.pieces sec).length) 0 (PP.ofView p v) c = .ok (pp', log) ∧
+      log.map (·.2) = r.2.map (·.2) ∧
+      r.1.Sublist (numbered (o.pieces sec)) ∧
+      (((r.2.filter (·.2)).map (·.1)) ++ r.1).Perm (numbered (o.pieces sec)) ∧
+      (∀ l1 l2 a, r.2 = l1 ++ (a, true) :: l2 → a ∉ l2.map (·.1) ∧ a ∉ r.1) ∧
+      (∀ a ∈ r.1, (a, false) ∈ r.2) ∧
+      ((pp' = PP.ofView p v ∧ r.1 = numbered (o.pieces sec)) ∨
+       (∃ P' : PlainObj pp', P'.lst sec = r.1.map (·.1) ∧ (∀ s, s ≠ sec → P'.lst s = o.pieces s) ∧
+          o.qc = (encLabels P'.qls ++ [0]) ++ P'.q4 ∧
+          (∀ i, (i + 1 < sectionCountOffset sec ∨ sectionCountOffset sec + 1 < i) → get16 P'.hdr i = get16 (p.take 12) i))) := by
+  have hlen : (numbered (o.pieces sec)).length = (o.pieces sec).length := by simp [numbered]
+  have hterm := absWalk_terminates choose (fuelFor (o.pieces sec).length) 0 (numbered (o.pieces sec)) 0
+    (by rw [hlen]; unfold fuelFor; omega)
+  obtain ⟨r, hr⟩ := Option.isSome_iff_exists.1 hterm
+  have hmap := absWalk_map Prod.fst choose (fuelFor (o.pieces sec).length) 0 (numbered (o.pieces sec)) 0
+  have hfst : (numbered (o.pieces sec)).map Prod.fst = o.pieces sec := by simp [numbered]
+  rw [hfst, hr] at hmap
+  simp only [Option.map_some] at hmap
+  obtain ⟨pp', log, hw, hl, hres⟩ := delWalk_fresh_refines (fresh_ofView h) L o sec hs step hstep choose _ 0 c 0
+    ⟨hc, Or.inl ⟨hv, rfl⟩⟩ _ hmap
+  obtain ⟨s1, _⟩ := absWalk_sublist choose _ _ _ _ _ hr
+  have hperm := absWalk_perm choose _ _ _ _ _ hr
+  refine ⟨pp', log, r, hr, hw, by rw [hl]; simp, s1, hperm,
+    absWalk_deleted_gone choose _ _ _ _ _ (numbered_nodup _) hr, ?_, ?_⟩
+  · intro a ha
+    rcases absWalk_yields_survivors choose _ _ _ _ _ hr a ha with h0 | h1
+    · simp at h0
+    · exact h1
+  · rcases hres with ⟨h1, h2, h3⟩ | ⟨P', f1, f2, f3, f4⟩
+    · left
+      refine ⟨h1, ?_⟩
+      -- nothing deleted: the machine left everything
+      have hnone : (r.2.filter (·.2)) = [] := by
+        apply List.filter_eq_nil_iff.2
+        intro e he
+        have : ((e.1.1, e.2) : Bytes × Bool) ∈ r.2.map (fun e => (e.1.1, e.2)) := List.mem_map.2 ⟨e, he, rfl⟩
+        have := h3 _ this
+        simpa using this
+      rw [hnone] at hperm
+      simp only [List.map_nil, List.nil_append] at hperm
+      exact s1.eq_of_length_le (by rw [hperm.length_eq]; exact Nat.le_refl _)
+    · exact Or.inr ⟨P', f1, f2, f3, f4⟩
 
 /-- the hypotheses are satisfiable and the machine does what one expects on a small case:
 three records, the first and the third chosen -/
